@@ -96,6 +96,7 @@ func (s *c10) genBlock(r *kit.Rng) []*wire.MsgTx {
 		n = r.Range(2, 6)
 	}
 	chainy := r.Chance(1, 2)
+	coinbase := r.Chance(1, 2)
 	var txs []*wire.MsgTx
 	var prevs []prevRef
 	for _, h := range s.hashes {
@@ -109,6 +110,10 @@ func (s *c10) genBlock(r *kit.Rng) []*wire.MsgTx {
 		for k := 0; k < nin; k++ {
 			var in txIn
 			switch {
+			case i == 0 && k == 0 && coinbase:
+				// coinbase-like: spends the null outpoint
+				in.prev = chainhash.Hash{}
+				in.index = 0xffffffff
 			case i > 0 && chainy && k == 0:
 				p := txs[i-1]
 				in.prev = p.TxHash()
@@ -218,6 +223,9 @@ func (s *c10) Gen(r *kit.Rng) (kit.Op, bool) {
 		return kit.Op{K: "add", D: kit.Hex(s.element(r))}, true
 	case 1:
 		h := s.hashes[r.Intn(len(s.hashes))]
+		if r.Chance(1, 10) {
+			return kit.Op{K: "addop", D: kit.Hex(make([]byte, 32)), N: []int64{0xffffffff}}, true
+		}
 		if len(s.lastTxs) > 0 && r.Chance(1, 2) {
 			x := s.lastTxs[r.Intn(len(s.lastTxs))].TxHash()
 			h = x[:]
